@@ -8,6 +8,7 @@ import (
 	"sync"
 	"sync/atomic"
 	"testing"
+	"testing/synctest"
 	"time"
 
 	ml "github.com/hashicorp/memberlist"
@@ -465,4 +466,11 @@ func TestC20(t *testing.T) {
 	})
 	forCases(n/4+6, 202, "d", func(i int, r *rng, id string) { c20Denied(r, id) })
 	forCases(n/6+8, 204, "l", func(i int, r *rng, id string) { c20Alone(r, id) })
+	// background activity ends within one probe interval: a probe round - direct ping, relays, stream fallback
+	// against peers that answer, refuse, answer late or not at all - never outlasts its deadline
+	c19Prop = "C20"
+	forCases(2*n, 205, "p", func(i int, r *rng, id string) {
+		synctest.Test(t, func(t *testing.T) { c19Probe(r, id) })
+	})
+	c19Prop = "C19"
 }
